@@ -202,6 +202,17 @@ def needle_node_lists():
                 nodes = (((0.0, 0.0), (0.0, 0.0), p_1), (p_2, (float(d_x), float(d_y)),
                                                          (float(d_x), float(d_y))))
                 out.append((nodes, flat))
+        # a handle that pokes m flatness units *past* its own node (or starts behind the first
+        # one): its distance to the chord is the distance to that end point
+        for m_out in (0.5, 1.0, 1.5, 2.5, 8.0):
+            beyond = (d_x + d_x * m_out * unit / (1 << 15 if d_y else 1 << 17),
+                      d_y + d_y * m_out * unit / (1 << 15))
+            behind = (-d_x * m_out * unit / (1 << 15 if d_y else 1 << 17),
+                      -d_y * m_out * unit / (1 << 15))
+            end = (float(d_x), float(d_y))
+            out.append((((( 0.0, 0.0), (0.0, 0.0), (d_x * 0.25, d_y * 0.25)), (beyond, end, end)), flat))
+            out.append(((((0.0, 0.0), (0.0, 0.0), behind), ((d_x * 0.75, d_y * 0.75), end, end)), flat))
+            out.append(((((0.0, 0.0), (0.0, 0.0), (0.0, 0.0)), (beyond, end, end)), flat))
     return out
 
 
